@@ -17,8 +17,12 @@
 (***************************************************************************)
 EXTENDS OrdaSync
 CONSTANTS MaxFaults
-VARIABLE nfault
-fvars == <<vars, nfault>>
+VARIABLES nfault,
+          lastf     \* the last fault: <<command, mode, operations already inserted>>. In the model a failed run is atomic,
+                    \* so the state after it does not depend on where it failed; the code's state may. Keeping the
+                    \* placement in the state (and in the VIEW) makes TLC continue from every placement separately, so
+                    \* that retries, later syncs and resets are replayed after each of them.
+fvars == <<vars, nfault, lastf>>
 
 Cmds(r) ==
     LET c == r.from
@@ -47,12 +51,14 @@ ServeFault(r) ==
             ELSE UNCHANGED <<resps, napply>>
          /\ Record([name |-> "serveFault", id |-> r.id, n |-> nserve[r.id] + 1, c |-> r.from, k |-> k, how |-> mode,
                     m |-> Cmds(r)[k], ncmd |-> Len(Cmds(r)),
+                    occ |-> Cardinality({j \in 1..k : Cmds(r)[j] = Cmds(r)[k]}),
                     ins |-> \E j \in 1..(k - 1) : Cmds(r)[j] = "insert Operations"])
+         /\ lastf' = <<Cmds(r)[k], mode, \E j \in 1..(k - 1) : Cmds(r)[j] = "insert Operations">>
     /\ UNCHANGED <<cl, dt, oplog, reqs, nsend>>
 
-FNext == \/ (Next /\ UNCHANGED nfault)
+FNext == \/ (Next /\ UNCHANGED <<nfault, lastf>>)
          \/ \E r \in reqs : ServeFault(r)
-FInit == Init /\ nfault = 0
+FInit == Init /\ nfault = 0 /\ lastf = <<>>
 FSpec == FInit /\ [][FNext]_fvars
-FStateView == <<StateView, nfault>>
+FStateView == <<StateView, nfault, lastf>>
 ====
